@@ -56,7 +56,7 @@ func (s *stdSvc) gSenderVia(rt *rapid.T, g stdIngress, fromPort int) AVia {
 }
 
 func TestC07(t *testing.T) {
-	V.Rule("lab (services started from generated YAML text, no-received absent / false / true per listen entry): requests from user agents at distinct loopback addresses over UDP (from port 5060, 6010 or one beyond 32767) and over accepted TCP connections, and requests a TCP backend sends over the connection the proxy opened to it; the sender's top Via names its own or another endpoint, an alias or a foreign host, with rport absent / valueless / pre-filled with a wrong port, received absent / spoofed, further parameters around them, more Via entries beneath, laid out in any way; plus bursts of 2-40 requests sent back to back from several source sockets (each must be stamped with its own source). Oracle at the next hop: sender's entry = as sent with received=<source IP> (exactly one) and rport=<source port> iff rport was present; every other parameter and entry textually untouched; with received-support off the entry is textually the one sent. Then the backend answers and the response must arrive at (source IP, source port) if rport was requested, (source IP, sent-by port) otherwise, at the sent-by/received address as written when support is off, on the same connection for TCP. non-trivial = spoofed received or pre-filled rport, or sent-by different from the source; distinct by (instance, ingress, sender Via)")
+	V.Rule("lab (services started from generated YAML text, no-received absent / false / true per listen entry): requests from user agents at distinct loopback addresses over UDP (from port 5060, 6010 or one beyond 32767) and over accepted TCP connections, requests a TCP backend sends over the connection the proxy opened to it, and requests a TCP next hop sends over the connection the proxy opened to it on behalf of each of the three listen entries (their settings differ); the sender's top Via names its own or another endpoint, an alias or a foreign host, with rport absent / valueless / pre-filled with a wrong port, received absent / spoofed, further parameters around them, more Via entries beneath, laid out in any way; plus bursts of 2-40 requests sent back to back from several source sockets (each must be stamped with its own source). Oracle at the next hop: sender's entry = as sent with received=<source IP> (exactly one) and rport=<source port> iff rport was present; every other parameter and entry textually untouched; with received-support off the entry is textually the one sent. Then the backend answers and the response must arrive at (source IP, source port) if rport was requested, (source IP, sent-by port) otherwise, at the sent-by/received address as written when support is off, on the same connection for TCP. non-trivial = spoofed received or pre-filled rport, or sent-by different from the source; distinct by (instance, ingress, sender Via)")
 	V.Require("source port beyond 32767", "engine:bin (real binary)", "support:on", "support:off", "ingress:udp", "ingress:tcp-accepted", "ingress:tcp-outbound-to-backend", "spoofed received", "pre-filled rport", "valueless rport", "no rport", "sent-by is another endpoint", "response returned to true source", "burst: >=2 sources interleaved")
 	vars := []stdVariant{
 		{NoReceived: [3]string{"", "false", "true"}},
@@ -332,6 +332,8 @@ func TestC07(t *testing.T) {
 		}
 	})
 
+	c07HopConnections(t, svcs)
+
 	rcheck(t, "backend-connection", V.N(400, 3000), func(rt *rapid.T) {
 		vi := rapid.IntRange(0, len(svcs)-1).Draw(rt, "instance")
 		s := svcs[vi]
@@ -384,6 +386,82 @@ func TestC07(t *testing.T) {
 		}
 		if f := checkStamped(own, outE[len(outE)-1], stamp, bip, bport); f != "" {
 			failf(rt, "request received over the proxy's own connection to backend %s (listen entry 0, no-received: %q): %s", conn.local, s.in.cfg.Listens[0].NoReceived, f)
+		}
+	})
+}
+
+// c07HopConnections: requests that arrive over a connection the proxy itself
+// opened towards a TCP next hop - for every listen entry (each has its own
+// setting): a user agent's request enters listen entry e and is routed to the
+// TCP hop, which then sends a request of its own back over that connection.
+func c07HopConnections(t *testing.T, svcs []*stdSvc) {
+	V.Require("ingress:tcp-outbound-to-next-hop", "ingress:tcp-outbound-to-next-hop of a later listen entry")
+	rcheck(t, "hop-connection", V.N(300, 2500), func(rt *rapid.T) {
+		vi := rapid.IntRange(0, len(svcs)-1).Draw(rt, "instance")
+		s := svcs[vi]
+		entry := rapid.IntRange(0, 2).Draw(rt, "entry")
+		l := s.in.cfg.Listens[entry]
+		stamp := s.model.receivedSupport(entry)
+		ua := s.uas[rapid.IntRange(0, 3).Draw(rt, "ua")]
+		hopIP, hopPort := s.ip(25), rapid.SampledFrom([]int{5070, 5061}).Draw(rt, "hop port")
+		// 1. a request through listen entry e to the TCP hop
+		id := s.nextID("c07h-")
+		wire := []byte(fmt.Sprintf("OPTIONS sip:x@elsewhere.example SIP/2.0\r\nVia: SIP/2.0/UDP %s:5060;branch=z9hG4bK%s\r\nRoute: <sip:%s:%d;transport=tcp;lr>\r\nFrom: <sip:a@b>;tag=1\r\nTo: <sip:x@elsewhere.example>\r\nCall-ID: %s\r\nCSeq: 1 OPTIONS\r\nContent-Length: 0\r\n\r\n", ua.ip, id, hopIP, hopPort, id))
+		s.model.learnRequest(s.model.transport(entry, "udp"), ua.ip, &AMsg{IsReq: true, Hdrs: []AHdr{{Kind: hVia, Vias: []AVia{{Host: ua.ip}}}}})
+		send := func(b []byte) error { return ua.sendUDP(l.Addr, l.UDPPort, b) }
+		V.Journal(t.Name()+"/hop-connection", map[string]any{"instance": vi, "entry": entry, "hop": fmt.Sprintf("%s:%d", hopIP, hopPort)})
+		s.in.expect(wire)
+		send(wire)
+		rs, err := s.in.settle(send, 1)
+		if _, lost := err.(labLost); lost {
+			failf(rt, "%v", err)
+		} else if err != nil {
+			V.HarnessError(rt, "%v", err)
+		}
+		got := labMessages(rs)
+		if len(got) != 1 || got[0].tcp == nil || got[0].ep == nil || got[0].ep.ip != hopIP || got[0].ep.port != hopPort {
+			return // where a request goes is C03's subject
+		}
+		conn := got[0].tcp
+		// 2. the hop's own request over that connection, routed to a user agent
+		toUA := rapid.IntRange(0, 3).Draw(rt, "toua")
+		own := s.gSenderVia(rt, stdIngress{UA: 0, Entry: entry, TCP: true}, hopPort)
+		own.Host = rapid.SampledFrom([]string{hopIP, "hop.internal.example", s.ip(12)}).Draw(rt, "hop sent-by")
+		p := msgParts{IsReq: true, Version: "SIP/2.0", Method: rapid.SampledFrom([]string{"NOTIFY", "OPTIONS", "MESSAGE", "BYE"}).Draw(rt, "method")}
+		p.CSeqMethod, p.CSeqN = p.Method, rapid.IntRange(1, 9999).Draw(rt, "cseq")
+		p.CallID = s.nextID("c07hr-")
+		p.RURI = AURI{Scheme: "sip", User: "u", Host: s.ip(10 + toUA), Port: 6010}
+		p.From = ANameAddr{URI: AURI{Scheme: "sip", User: "hop", Host: "hop.example"}, Params: []AParam{{K: "tag", V: "h" + p.CallID, HasV: true}}}
+		p.To = ANameAddr{URI: AURI{Scheme: "sip", User: "u", Host: "nomatch.example"}}
+		p.Routes = []ANameAddr{{URI: AURI{Scheme: "sip", Host: s.ip(10 + toUA), Port: 6010, Params: []AParam{{K: "lr"}}}}}
+		p.Vias = []AVia{own}
+		msg := assemble(rt, "layout", p)
+		V.Journal(t.Name()+"/hop-connection", c07Case{vi, stdIngress{Entry: entry, TCP: true}, hopPort, own.String(), stamp, jsonBytes(msg.Bytes())})
+		s.in.expect(msg.Bytes())
+		if err := conn.sendStrict(msg.Bytes()); err != nil {
+			failf(rt, "%v", err)
+		}
+		rs, err = s.in.settle(conn.sendStrict, 1)
+		if _, lost := err.(labLost); lost {
+			failf(rt, "%v", err)
+		} else if err != nil {
+			V.HarnessError(rt, "%v", err)
+		}
+		got = labMessages(rs)
+		if len(got) != 1 || got[0].ep == nil || got[0].ep.ip != s.ip(10+toUA) || got[0].ep.port != 6010 || got[0].tcp != nil {
+			failf(rt, "the next hop's own request, sent over the connection the proxy opened to it for listen entry %d, must be relayed to %s:6010 by its Route; receptions:\n%s", entry, s.ip(10+toUA), labDescribe(got))
+		}
+		V.Class("ingress:tcp-outbound-to-next-hop")
+		V.ClassIf(entry > 0, "ingress:tcp-outbound-to-next-hop of a later listen entry")
+		V.ClassIf(stamp, "support:on")
+		V.ClassIf(!stamp, "support:off")
+		V.NonTrivial(fmt.Sprintf("h|%d|%d|%s", vi, entry, own.String()))
+		outE := got[0].msg.Entries(hVia)
+		if len(outE) < 1 {
+			failf(rt, "relayed request lost its Via")
+		}
+		if f := checkStamped(own, outE[len(outE)-1], stamp, hopIP, hopPort); f != "" {
+			failf(rt, "request received over the connection the proxy opened to the next hop %s:%d for listen entry %d (no-received: %q): %s", hopIP, hopPort, entry, l.NoReceived, f)
 		}
 	})
 }
